@@ -627,7 +627,7 @@ impl Runner {
         }
         act_log_start();
         let ret = match op {
-            Op::Init { version, dirs, libs, yaml } => {
+            Op::Init { version, dirs, libs, yaml, count } => {
                 let st_dir = cstr(&self.dirs.storage(*dirs).display().to_string());
                 let ca_dir = cstr(&self.dirs.cache(*dirs).display().to_string());
                 let ver = cstr(version);
@@ -637,7 +637,7 @@ impl Runner {
                 let params = capi::AppParameters {
                     release_version: ver.as_ptr(),
                     original_libapp_paths: lib_ptrs.as_ptr(),
-                    original_libapp_paths_size: lib_ptrs.len() as libc::c_int,
+                    original_libapp_paths_size: count.map(|n| n.min(lib_ptrs.len() as i32)).unwrap_or(lib_ptrs.len() as i32) as libc::c_int,
                     app_storage_dir: st_dir.as_ptr(),
                     code_cache_dir: ca_dir.as_ptr(),
                 };
